@@ -308,7 +308,8 @@ def apply_ops(scn, pas, ops):
         elif op['op'] == 'seth':
             for i, s in zip(idx, op['sh']):
                 hv = pa.h[i] * (2.0 ** s)
-                if hv * scn['unit'] >= 1 and hv <= 64.0:
+                if hv * scn['unit'] >= 1 and hv <= 64.0 and \
+                        float(hv * scn['unit']).is_integer():
                     pa.h[i] = hv
         elif op['op'] == 'remove':
             pa.remove_particles(np.array(idx, dtype=np.int64))
